@@ -58,7 +58,7 @@ func (c *c14) Cases(tier string, seed int64) []core.Case {
 			}
 		}
 	}
-	n := map[string]int{"quick": 16, "thorough": 200}[tier]
+	n := map[string]int{"quick": 16, "thorough": 1000}[tier]
 	for i := 0; i < n; i++ {
 		f := []string{"par2", "par1"}[i%2]
 		cs = append(cs, core.MkCase(fmt.Sprintf("%s-walk-%d", f, i), c14Params{Seed: r.Int63(), Fmt: f, Mode: "walk", Steps: map[string]int{"quick": 60, "thorough": 200}[tier]}))
